@@ -430,4 +430,28 @@ def proof_step(run, props_v, theorems, extra_targets=()):
     run.cov["coq_wall_s"] = round(wall, 2)
     if notclosed:
         raise BrokenTie("proof", "Print Assumptions", "theorems depend on axioms: %r" % notclosed)
+    if run.tier == "thorough":
+        run.cov["coqchk"] = coqchk(props_v, closure)
     return closure
+
+
+def coqchk(props_v, closure):
+    """independent re-check of the compiled property file and everything it depends on (thorough tier; cached per closure hash)"""
+    h = hashlib.sha256()
+    for vf in closure:
+        h.update(open(os.path.join(COQ, vf), "rb").read())
+    mark = os.path.join(CACHE, "coqchk-%s-%s.txt" % (os.path.basename(props_v)[:-2], h.hexdigest()[:16]))
+    if os.path.exists(mark):
+        return open(mark).read()
+    mod = "Bebop." + props_v[:-2].replace("/", ".")
+    with Lock("coqchk"):
+        rc, so, se = sh(["timeout", "3000", "coqchk", "-silent", "-o", "-Q", COQ, "Bebop", mod], cwd=COQ, timeout=3100)
+    out = (so + se).strip()
+    if rc != 0:
+        raise BrokenTie("proof", "coqchk " + mod, out[-2000:])
+    # keep the summary: what the checker says about axioms
+    i = out.find("CONTEXT SUMMARY")
+    summary = out[i:] if i >= 0 else out[-1500:]
+    summary = summary[:3000]
+    open(mark, "w").write(summary)
+    return summary
